@@ -6,6 +6,7 @@ import Mathlib.Tactic.Ring
 import Mathlib.Tactic.NormNum
 import AcryoVerif.Lemmas.PyLemmas
 import AcryoVerif.Gen.Sim
+import AcryoVerif.Model.Sim
 import AcryoVerif.Props.C02
 
 /-!
@@ -16,7 +17,7 @@ A fragment of the template's shape is computed by `affine_transform(template, M)
 `u` therefore lands at tomogram coordinate `starts + output_center + R (u - center)`.
 -/
 namespace C14
-open Gen
+open Gen Model
 
 theorem source_structure :
     simMatrixStructure = true ∧ simAccumulates = true ∧ sim2dProjectsEveryMolecule = true
@@ -110,5 +111,243 @@ theorem projection_height (z zmax σ : ℚ) (n sumshape : Int) (hσ : 0 < σ) (h
       ≤ ((Py.ceil (zmax / σ + (sumshape : ℚ)) : Int) : ℚ) := by
     push_cast; linarith
   exact_mod_cast this
+
+/-! ## Array level: the accumulated tomogram equals the sum of the posed templates
+
+`Model.simulate1d` follows the code (window from the regenerated `simPrep`, whole-voxel translation of the
+template, clipping by the regenerated `makeSliceAndPad`, skip on out-of-bound, `+=` one molecule after the
+other); `Model.specAt` is the statement of C14. `simulate1d_spec` is the refinement; order and partition
+independence, the exact paste and the absence of errors are corollaries. -/
+
+theorem slice_values (z0 z1 N a b p0 p1 : Int) (oob : Bool)
+    (h : makeSliceAndPad z0 z1 N = .ok ((a, b), (p0, p1), oob)) :
+    a = max z0 0 ∧ b = min z1 N ∧ p0 = a - z0 ∧ p1 = z1 - b ∧ (oob = false → p0 = 0 ∧ p1 = 0) := by
+  unfold makeSliceAndPad at h
+  simp only [bind, Except.bind, pure, Except.pure, throw, throwThe, MonadExceptOf.throw] at h
+  grind
+
+theorem addAt_length (t : List ℚ) (a : Nat) (f : List ℚ) : (addAt t a f).length = t.length := by
+  simp [addAt]
+
+theorem addAt_get (t : List ℚ) (a : Nat) (f : List ℚ) (j : Nat) (hj : j < t.length) :
+    ((addAt t a f)[j]?).getD 0 = (t[j]?).getD 0 + (if a ≤ j then (f[j - a]?).getD 0 else 0) := by
+  simp only [addAt, List.getElem?_mapIdx, List.getElem?_eq_getElem hj, Option.map_some, Option.getD_some]
+  split <;> simp
+
+theorem tmplAt_of_not_mem (tmpl : List ℚ) (i : Int) (h : i < 0 ∨ (tmpl.length : Int) ≤ i) : tmplAt tmpl i = 0 := by
+  unfold tmplAt
+  split
+  · rename_i h0
+    have : tmpl.length ≤ i.toNat := by omega
+    simp [List.getElem?_eq_none this]
+  · rfl
+
+theorem shiftTmpl_length (tmpl : List ℚ) (d : Int) : (shiftTmpl tmpl d).length = tmpl.length := by
+  simp [shiftTmpl]
+
+theorem shiftTmpl_at (tmpl : List ℚ) (d i : Int) :
+    tmplAt (shiftTmpl tmpl d) i = if 0 ≤ i ∧ i < tmpl.length then tmplAt tmpl (i + d) else 0 := by
+  by_cases h : 0 ≤ i ∧ i < tmpl.length
+  · rw [if_pos h]
+    obtain ⟨h0, h1⟩ := h
+    have hi : i.toNat < tmpl.length := by omega
+    simp only [tmplAt, if_pos h0, shiftTmpl, List.getElem?_map, List.getElem?_range hi, Option.map_some,
+      Option.getD_some]
+    have : ((i.toNat : Nat) : Int) = i := Int.toNat_of_nonneg h0
+    rw [this]
+  · rw [if_neg h]
+    apply tmplAt_of_not_mem
+    rw [shiftTmpl_length]
+    omega
+
+/-- one fragment: never an error; voxel `j` of the tomogram gains fragment voxel `j - start` (zero when the
+fragment does not cover `j`) — clipping at both faces and skipping of outside fragments included -/
+theorem pasteOne_spec (t : List ℚ) (start : Int) (frag : List ℚ) (hn : 1 ≤ frag.length) (hN : 1 ≤ t.length) :
+    ∃ t', pasteOne t start frag = .ok t' ∧ t'.length = t.length ∧
+      ∀ j : Nat, j < t.length → (t'[j]?).getD 0 = (t[j]?).getD 0 + tmplAt frag ((j : Int) - start) := by
+  unfold pasteOne
+  cases h : makeSliceAndPad start (start + frag.length) t.length with
+  | error e =>
+    refine ⟨t, rfl, rfl, ?_⟩
+    intro j hj
+    have he := C02.slice_error_kind _ _ _ e h
+    subst he
+    have := (C02.slice_error_iff start (start + frag.length) t.length (by omega) (by omega)).mp h
+    rw [tmplAt_of_not_mem frag _ (by omega)]
+    simp
+  | ok r =>
+    obtain ⟨⟨a, b⟩, ⟨p0, p1⟩, oob⟩ := r
+    obtain ⟨ha, hb, hp0, hp1, hoob⟩ := slice_values _ _ _ _ _ _ _ _ h
+    have h1 := C02.slice_ok _ _ _ _ _ _ _ _ (by omega) (by omega) h
+    have hsrc : (if oob then (frag.take ((frag.length : Int) - p1).toNat).drop p0.toNat else frag)
+        = (frag.take ((frag.length : Int) - p1).toNat).drop p0.toNat := by
+      cases oob with
+      | true => rfl
+      | false =>
+        obtain ⟨e0, e1⟩ := hoob rfl
+        subst e0 e1
+        simp
+    simp only [hsrc]
+    have hlen : (((frag.take ((frag.length : Int) - p1).toNat).drop p0.toNat).length : Int) = b - a := by
+      rw [List.length_drop, List.length_take]
+      omega
+    rw [if_neg (by omega), if_neg (by omega)]
+    refine ⟨_, rfl, addAt_length _ _ _, ?_⟩
+    intro j hj
+    rw [addAt_get _ _ _ _ hj]
+    congr 1
+    by_cases hja : a.toNat ≤ j
+    · rw [if_pos hja]
+      by_cases hjb : (j : Int) < b
+      · -- inside the destination slice
+        have hidx : 0 ≤ (j : Int) - start := by omega
+        simp only [tmplAt, if_pos hidx, List.getElem?_drop, List.getElem?_take]
+        have e1 : p0.toNat + (j - a.toNat) = ((j : Int) - start).toNat := by omega
+        rw [e1, if_pos (by omega)]
+      · have hge : ((frag.take ((frag.length : Int) - p1).toNat).drop p0.toNat).length ≤ j - a.toNat := by omega
+        rw [List.getElem?_eq_none hge, tmplAt_of_not_mem frag _ (by omega)]
+        rfl
+    · rw [if_neg hja, tmplAt_of_not_mem frag _ (by omega)]
+
+/-- the translation of a grid-coincident pose is a whole number of voxels, 0 or 1, and 1 only for
+molecules left of the origin (truncation toward zero of a negative position) -/
+theorem grid_shift (p σ : ℚ) (n k : Int) (hn : 1 ≤ n) (hgrid : p / σ - ((n : ℚ) - 1) / 2 = (k : ℚ)) :
+    let r := simPrep p σ n
+    r.2.2.1 - r.2.2.2 = ((r.1 - k : Int) : ℚ) ∧ (r.1 - k = 0 ∨ (r.1 - k = 1 ∧ k < 0)) := by
+  simp only [simPrep]
+  generalize hq : p / σ = q at *
+  have hc : (0 : ℚ) ≤ ((n : ℚ) - 1) / 2 := by
+    have : (1 : ℚ) ≤ (n : ℚ) := by exact_mod_cast hn
+    linarith
+  have c1 := Py.trunc_le_of_nonneg _ hc
+  have c2 := Py.trunc_gt (((n : ℚ) - 1) / 2)
+  have t2 := Py.trunc_gt q
+  have t3 := Py.trunc_lt q
+  constructor
+  · push_cast; linarith
+  · by_cases h0 : 0 ≤ q
+    · left
+      have t1 := Py.trunc_le_of_nonneg q h0
+      have h1 : ((Py.trunc q - Py.trunc (((n : ℚ) - 1) / 2) - k : Int) : ℚ) < 1 := by push_cast; linarith
+      have h2 : (-1 : ℚ) < ((Py.trunc q - Py.trunc (((n : ℚ) - 1) / 2) - k : Int) : ℚ) := by push_cast; linarith
+      have h3 : Py.trunc q - Py.trunc (((n : ℚ) - 1) / 2) - k < 1 := by exact_mod_cast h1
+      have h4 : -1 < Py.trunc q - Py.trunc (((n : ℚ) - 1) / 2) - k := by exact_mod_cast h2
+      omega
+    · have hq0 : q < 0 := lt_of_not_ge h0
+      have t1 := Py.trunc_ge_of_neg q hq0
+      have hk : (k : ℚ) < 0 := by linarith
+      have hk' : k < 0 := by exact_mod_cast hk
+      have h1 : ((Py.trunc q - Py.trunc (((n : ℚ) - 1) / 2) - k : Int) : ℚ) < 2 := by push_cast; linarith
+      have h2 : (-1 : ℚ) < ((Py.trunc q - Py.trunc (((n : ℚ) - 1) / 2) - k : Int) : ℚ) := by push_cast; linarith
+      have h3 : Py.trunc q - Py.trunc (((n : ℚ) - 1) / 2) - k < 2 := by exact_mod_cast h1
+      have h4 : -1 < Py.trunc q - Py.trunc (((n : ℚ) - 1) / 2) - k := by exact_mod_cast h2
+      omega
+
+/-- a molecule is *grid coincident* when its template voxels coincide with tomogram voxels:
+`pos/scale - (n-1)/2` is a whole number (integer pixel position for odd sizes, half-integer for even ones) -/
+def GridCoincident (scale : ℚ) (m : ℚ × List ℚ) : Prop :=
+  1 ≤ m.2.length ∧ ∃ k : Int, m.1 / scale - (((m.2.length : Int) : ℚ) - 1) / 2 = (k : ℚ)
+
+theorem simulateOne_spec (scale : ℚ) (t : List ℚ) (m : ℚ × List ℚ) (hm : GridCoincident scale m) (hN : 1 ≤ t.length) :
+    ∃ t', simulateOne scale t m = .ok t' ∧ t'.length = t.length ∧
+      ∀ j : Nat, j < t.length → (t'[j]?).getD 0 = (t[j]?).getD 0 + specAt scale [m] j := by
+  obtain ⟨hn, k, hk⟩ := hm
+  obtain ⟨hd, hcase⟩ := grid_shift m.1 scale m.2.length k (by omega) hk
+  unfold simulateOne
+  simp only [hd, Rat.den_intCast, Rat.num_intCast, ne_eq, not_true_eq_false, if_false]
+  obtain ⟨t', h1, h2, h3⟩ := pasteOne_spec t (simPrep m.1 scale m.2.length).1
+    (shiftTmpl m.2 ((simPrep m.1 scale m.2.length).1 - k)) (by rw [shiftTmpl_length]; exact hn) hN
+  refine ⟨t', h1, h2, ?_⟩
+  intro j hj
+  rw [h3 j hj]
+  congr 1
+  simp only [specAt, List.map_cons, List.map_nil, List.sum_cons, List.sum_nil, add_zero, hk, Rat.floor_intCast]
+  rw [shiftTmpl_at]
+  split
+  · congr 1; omega
+  · rename_i hout
+    symm
+    apply tmplAt_of_not_mem
+    omega
+
+theorem specAt_cons (scale : ℚ) (m : ℚ × List ℚ) (ms : List (ℚ × List ℚ)) (j : Nat) :
+    specAt scale (m :: ms) j = specAt scale [m] j + specAt scale ms j := by
+  simp [specAt]
+
+theorem simulate_from (scale : ℚ) (mols : List (ℚ × List ℚ)) (hm : ∀ m ∈ mols, GridCoincident scale m)
+    (t : List ℚ) (hN : 1 ≤ t.length) :
+    ∃ r, mols.foldlM (simulateOne scale) t = .ok r ∧ r.length = t.length ∧
+      ∀ j : Nat, j < t.length → (r[j]?).getD 0 = (t[j]?).getD 0 + specAt scale mols j := by
+  induction mols generalizing t with
+  | nil => exact ⟨t, rfl, rfl, by intro j _; simp [specAt]⟩
+  | cons m ms ih =>
+    obtain ⟨t', h1, h2, h3⟩ := simulateOne_spec scale t m (hm m (by simp)) hN
+    obtain ⟨r, g1, g2, g3⟩ := ih (fun x hx => hm x (by simp [hx])) t' (by omega)
+    refine ⟨r, ?_, by omega, ?_⟩
+    · simp only [List.foldlM_cons, h1]
+      exact g1
+    · intro j hj
+      rw [specAt_cons scale m ms j, g3 j (by omega), h3 j hj]
+      ring
+
+/-- **Refinement.** For every list of grid-coincident molecules (any positions — interior, straddling either
+face, outside, negative —, any template sizes, any scale) the code's accumulation never fails, returns a
+tomogram of the requested length, and its voxel `j` is the sum over all molecules of the template voxel the
+pose puts there. -/
+theorem simulate1d_spec (scale : ℚ) (N : Nat) (hN : 1 ≤ N) (mols : List (ℚ × List ℚ))
+    (hm : ∀ m ∈ mols, GridCoincident scale m) :
+    ∃ r, simulate1d scale N mols = .ok r ∧ r.length = N ∧ ∀ j : Nat, j < N → (r[j]?).getD 0 = specAt scale mols j := by
+  obtain ⟨r, h1, h2, h3⟩ := simulate_from scale mols hm (List.replicate N 0) (by simpa using hN)
+  refine ⟨r, h1, by simpa using h2, ?_⟩
+  intro j hj
+  have := h3 j (by simpa using hj)
+  simpa [List.getElem?_replicate, hj] using this
+
+theorem specAt_perm (scale : ℚ) (m₁ m₂ : List (ℚ × List ℚ)) (h : m₁.Perm m₂) (j : Nat) :
+    specAt scale m₁ j = specAt scale m₂ j := by
+  unfold specAt
+  exact (h.map _).sum_eq
+
+/-- **Order independence at the array level**: any reordering of the molecules (hence of components, and any
+re-partition of the molecules into components, which only changes the order of the flattened list) gives
+the same tomogram. -/
+theorem simulate1d_order_free (scale : ℚ) (N : Nat) (hN : 1 ≤ N) (m₁ m₂ : List (ℚ × List ℚ)) (h : m₁.Perm m₂)
+    (hm : ∀ m ∈ m₁, GridCoincident scale m) : simulate1d scale N m₁ = simulate1d scale N m₂ := by
+  obtain ⟨r₁, e1, l1, g1⟩ := simulate1d_spec scale N hN m₁ hm
+  obtain ⟨r₂, e2, l2, g2⟩ := simulate1d_spec scale N hN m₂ (fun m hmem => hm m (h.mem_iff.mpr hmem))
+  rw [e1, e2]
+  congr 1
+  apply List.ext_getElem? 
+  intro j
+  by_cases hj : j < N
+  · have a1 := g1 j hj
+    have a2 := g2 j hj
+    rw [specAt_perm scale m₁ m₂ h j] at a1
+    rw [List.getElem?_eq_getElem (by omega)] at a1 a2 ⊢
+    rw [List.getElem?_eq_getElem (by omega)]
+    simp only [Option.getD_some] at a1 a2
+    rw [a1, a2]
+  · rw [List.getElem?_eq_none (by omega), List.getElem?_eq_none (by omega)]
+
+/-- **Exact paste at the array level**: a single grid-coincident molecule whose template lies inside the
+volume — the tomogram contains the template voxel by voxel, starting at voxel `pos/scale - (n-1)/2`. -/
+theorem exact_paste_values (scale p : ℚ) (tmpl : List ℚ) (N : Nat) (k : Nat) (hn : 1 ≤ tmpl.length)
+    (hk : p / scale - (((tmpl.length : Int) : ℚ) - 1) / 2 = ((k : Int) : ℚ)) (hfit : k + tmpl.length ≤ N) :
+    ∃ r, simulate1d scale N [(p, tmpl)] = .ok r ∧ ∀ i : Nat, i < tmpl.length → (r[k + i]?).getD 0 = (tmpl[i]?).getD 0 := by
+  obtain ⟨r, e, _, g⟩ := simulate1d_spec scale N (by omega) [(p, tmpl)]
+    (by intro m hm; simp only [List.mem_singleton] at hm; subst hm; exact ⟨hn, k, hk⟩)
+  refine ⟨r, e, ?_⟩
+  intro i hi
+  rw [g (k + i) (by omega)]
+  simp only [specAt, List.map_cons, List.map_nil, List.sum_cons, List.sum_nil, add_zero, hk, Rat.floor_intCast]
+  have : ((k + i : Nat) : Int) - (k : Int) = (i : Int) := by omega
+  rw [this]
+  simp [tmplAt]
+
+-- non-vacuity and a worked example: two overlapping molecules, one straddling the lower face, one outside
+example : simulate1d 1 6 [(0, [1, 2, 3]), (5 / 2, [10, 20]), (40, [7])] = .ok [2, 3, 10, 20, 0, 0] := by decide +kernel
+example : GridCoincident 1 ((5 / 2 : ℚ), [10, 20]) := ⟨by decide, 2, by norm_num⟩
+-- even template left of the origin: the translation is one voxel (truncation toward zero)
+example : simulate1d (1 / 2) 4 [(-(1 / 4), [1, 2, 3, 4])] = .ok [3, 4, 0, 0] := by decide +kernel
 
 end C14
